@@ -721,14 +721,15 @@ impl<'a> VGen<'a> {
             }
             Ty::Set(t) => {
                 let n = self.size(depth);
-                let mut xs: Vec<TVal> = (0..n).map(|_| self.gen_ty(&t, depth + 1)).collect();
+                // elements that are containers themselves: canonical before the duplicate check
+                let mut xs: Vec<TVal> = (0..n).map(|_| canon(&self.gen_ty(&t, depth + 1))).collect();
                 sort_dedup(&mut xs);
                 self.rng.shuffle(&mut xs);
                 TVal::Set(s.tt(&t), xs)
             }
             Ty::Map(k, v) => {
                 let n = self.size(depth);
-                let mut es: Vec<(TVal, TVal)> = (0..n).map(|_| (self.gen_ty(&k, depth + 1), self.gen_ty(&v, depth + 1))).collect();
+                let mut es: Vec<(TVal, TVal)> = (0..n).map(|_| (canon(&self.gen_ty(&k, depth + 1)), self.gen_ty(&v, depth + 1))).collect();
                 sort_dedup_map(&mut es);
                 self.rng.shuffle(&mut es);
                 TVal::Map(s.tt(&k), s.tt(&v), es)
@@ -1163,7 +1164,10 @@ pub fn generate(seed: u64, profile: &GenProfile) -> Schema {
     }
     for i in 0..profile.files {
         for j in i + 1..profile.files {
-            if j == i + 1 || g.rng.chance(1, 2) {
+            // odd seeds: a pure chain c0 -> c1 -> c2, so that the last file is reached
+            // from the entry only through an include of an include
+            let extra = g.rng.chance(1, 2) && seed & 1 == 0;
+            if j == i + 1 || extra {
                 g.s.files[i].includes.push(j);
             }
         }
@@ -1302,6 +1306,22 @@ pub fn generate(seed: u64, profile: &GenProfile) -> Schema {
         fs.push(Field { id, name: format!("f{}", id), req: Req::Default, ty: Ty::List(Box::new(Ty::Map(Box::new(Ty::Str), Box::new(Ty::Set(Box::new(Ty::I32)))))), default: None, annots: vec![] });
         id += 1;
         fs.push(Field { id, name: format!("f{}", id), req: Req::Optional, ty: Ty::Map(Box::new(Ty::I64), Box::new(Ty::List(Box::new(Ty::List(Box::new(Ty::Ref(tops[0]))))))), default: None, annots: vec![] });
+        // bool as container element / map key / map value (the compact protocol codes an
+        // element bool differently from a field bool), in every corpus
+        for ty in [
+            Ty::List(Box::new(Ty::Bool)),
+            Ty::Set(Box::new(Ty::Bool)),
+            Ty::Map(Box::new(Ty::Bool), Box::new(Ty::Bool)),
+            Ty::Map(Box::new(Ty::I32), Box::new(Ty::List(Box::new(Ty::Bool)))),
+            // containers in hashed position (set element, map key)
+            Ty::Set(Box::new(Ty::List(Box::new(Ty::Double)))),
+            Ty::Map(Box::new(Ty::List(Box::new(Ty::I32))), Box::new(Ty::Str)),
+            Ty::Map(Box::new(Ty::Set(Box::new(Ty::I32))), Box::new(Ty::I64)),
+            Ty::Set(Box::new(Ty::Map(Box::new(Ty::Str), Box::new(Ty::Double)))),
+        ] {
+            id += 1;
+            fs.push(Field { id, name: format!("f{}", id), req: if id % 2 == 0 { Req::Default } else { Req::Optional }, ty, default: None, annots: vec![] });
+        }
         g.s.defs.push(Def { file, name: format!("S{}", counters.0), kind: Kind::Struct, fields: fs, annots: vec![] });
         counters.0 += 1;
         let ufs: Vec<Field> = tops
@@ -1309,6 +1329,9 @@ pub fn generate(seed: u64, profile: &GenProfile) -> Schema {
             .enumerate()
             .map(|(k, t)| Field { id: k as i16 + 1, name: format!("f{}", k + 1), req: Req::Default, ty: Ty::Ref(*t), default: None, annots: vec![] })
             .collect();
+        let mut ufs = ufs;
+        let n = ufs.len() as i16;
+        ufs.push(Field { id: n + 1, name: format!("f{}", n + 1), req: Req::Default, ty: Ty::List(Box::new(Ty::Bool)), default: None, annots: vec![] });
         g.s.defs.push(Def { file, name: format!("U{}", counters.1), kind: Kind::Union, fields: ufs, annots: vec![] });
         counters.1 += 1;
     }
